@@ -366,7 +366,7 @@ fn one(scratch: &std::path::Path, seed: u64, i: usize, keys: usize, pairs: usize
 
 pub fn run(env: &Env) -> i32 {
     let t0 = Instant::now();
-    let (n, keys, pairs, valuations, lines) = if env.quick() { (500, 1, 4, 6, 3) } else { (12_000, 4, 16, 32, 8) };
+    let (n, keys, pairs, valuations, lines) = if env.quick() { (500, 1, 4, 6, 3) } else { (2_500, 2, 12, 16, 6) };
     let n = std::env::var("VERIF_RUNS").ok().and_then(|s| s.parse().ok()).unwrap_or(n);
     let seed = env.seed;
     let ldir = env.scratch.join("L");
